@@ -327,6 +327,16 @@ theorem typed_aux : (e : Expr) → (τ : Ty) → tyOf e = some τ → GivenOk e 
     simp only [GivenOk] at hg
     obtain ⟨⟨ty, habs, htag⟩, _⟩ := typed_aux e τ h hg
     exact ⟨⟨ty, by simp only [abs, habs], htag⟩, by simp only [cv]; exact CVOk_unknown _⟩
+  | .present a c, τ, h, hg => by
+    simp only [tyOf] at h
+    simp only [GivenOk] at hg
+    split at h
+    · rename_i hc
+      simp only [Option.some.injEq] at h
+      subst h
+      obtain ⟨⟨ty, habs, htag⟩, _⟩ := typed_aux c .bool hc hg
+      exact ⟨⟨ty, by simp only [abs, habs], htag⟩, by simp only [cv]; exact CVOk_unknown _⟩
+    · cases h
   | .cref _, _, h, _ => by simp [tyOf] at h
 theorem typedList_aux : (es : List Expr) → allInt es = true → GivenOkList es = true →
     (∃ avs : List AVal, absList es = some (avs.map .int) ∧ ∀ a ∈ avs, InvS a) ∧
